@@ -877,6 +877,8 @@ class Controller(object):
         for i in range(min(num_pts_to_move, len(furthest_points) - 1)):
             # Determine which point to update (knew)
             knew = furthest_points[i]
+            if knew == self.model.kopt:
+                continue  # never move the incumbent: it is listed early if another point coincides with it (equal distances)
 
             # Using adelt=delta in fix_geometry (adelt determines the ball to max lagrange poly in altmov)
             # [Only reason actual 'delta' is needed in fix_geometry is for calling nsamples()]
@@ -914,6 +916,8 @@ class Controller(object):
         for i in range(min(num_pts_to_move, len(furthest_points) - 1)):
             # Determine which point to update (knew)
             knew = furthest_points[i]
+            if knew == self.model.kopt:
+                continue  # never move the incumbent: it is listed early if another point coincides with it (equal distances)
             if np.dot(dirns[i, :], d) < 0.0:
                 dirns[i, :] = -dirns[i, :]  # flip so pointing in direction
                 flipped = True
